@@ -13,7 +13,7 @@
      copy parent agree; a writer that was told "closed" has no reader that saw EOF; sends
      accepted after every derived reader was closed: none if close propagates
      synchronously, boundedly many through forwarder goroutines). *)
-From Eino Require Import Base.Util Model.Stream.
+From Eino Require Import Base.Util Model.Stream Model.StreamIlv.
 
 (* conversion functions used by the harness, as data *)
 Inductive cfspec : Type := CF (add skipm errm : N).
@@ -150,7 +150,7 @@ Definition leaf_ok (G : state) (tbl : list (nat * list item)) (l : lobs) : bool 
     | Some t =>
       match strands 100 G (wfun tbl) t with
       | None => false
-      | Some strs => is_interleaving_of eof got strs
+      | Some strs => ilv_fast eof got strs   (* = Shuf eof got strs, Proofs/StreamIlv.v: ilv_fast_spec *)
       end
     end
   end.
